@@ -66,7 +66,7 @@ class Solver2:
         os.makedirs(os.path.dirname(path), exist_ok=True)
         with open(path, "w") as f:
             f.write(smt2)
-        mv = [str(v) for v in (vars_for_model or [])]
+        mv = [str(v) for v in (vars_for_model or []) if ("(declare-fun %s " % str(v)) in smt2]
         with open(path + ".model.smt2", "w") as f:
             f.write(smt2 + ("(get-value (%s))\n" % " ".join(mv) if mv else ""))
         self.queue.append({"name": name, "path": path, "mv": mv})
@@ -98,7 +98,7 @@ class Solver2:
         q.update({"z3": zl, "cvc5": cl, "z3_s": round(zt, 2), "cvc5_s": round(ct, 2)})
         if zl == "sat" and q["mv"]:
             model = {}
-            for m in re.finditer(r"\((\S+) #x([0-9a-fA-F]+)\)|\((\S+) #b([01]+)\)", zo):
+            for m in re.finditer(r"\(([^\s()]+) #x([0-9a-fA-F]+)\)|\(([^\s()]+) #b([01]+)\)", zo):
                 if m.group(1):
                     model[m.group(1)] = int(m.group(2), 16)
                 else:
@@ -573,8 +573,278 @@ def check_conv_native(nm, m, r):
     return True if bad else "native conversions satisfy the property"
 
 
+# ------------------------------------------------------------------ C07 (layers 2 and 3)
+def c07_models(prog):
+    models = dict(M.CORE_MODELS)
+
+    def arrow(mach, name, args):
+        return [(M.T(), "ret", Ref(Adt("FinalArrow", [Ref(Opaque("final", {"w": prog["src"]})),
+                                                       Ref(Opaque("final", {"w": prog["tgt"]}))])))]
+
+    def bounds(mach, name, args):
+        return [(M.T(), "ret", Adt("NodeBounds", [prog["cells"], prog["frames"], Adt("Cost", [prog["cost"]])]))]
+
+    def bit_width(mach, name, args):
+        v = args[0]
+        while isinstance(v, Ref):
+            v = v.val
+        return [(M.T(), "ret", v.data["w"])]
+
+    models[r"^redeem::<impl Node<Redeem>>::arrow$"] = arrow
+    models[r"^redeem::<impl Node<Redeem>>::bounds$"] = bounds
+    models[r"^Final::bit_width$"] = bit_width
+    models[r"^std::vec::from_elem::<u8>$"] = lambda mach, name, args: [(M.T(), "ret", Opaque("bytes", {"len": args[1]}))]
+    models[r"^Vec::<Frame>::with_capacity$"] = lambda mach, name, args: [(M.T(), "ret", Opaque("frames", {"cap": args[0]}))]
+    models[r"^<Arc<Final> as Clone>::clone$"] = lambda mach, name, args: [(M.T(), "ret", Opaque("arc"))]
+    return models
+
+
+def ext(x, w=66):
+    return z3.ZeroExt(w - x.size(), x)
+
+
+def run_c07(mir_text, log, tier):
+    funcs = M.parse_mir(mir_text)
+    src, tgt, cells, frames = [z3.BitVec(n, 64) for n in ("src", "tgt", "cells", "frames")]
+    cost = z3.BitVec("cost", 32)
+    prog = {"src": src, "tgt": tgt, "cells": cells, "frames": frames, "cost": cost}
+    mach = M.Machine(funcs, c07_models(prog))
+    sol = Solver2(log, timeout_s=(120 if tier == "quick" else 600))
+    pv = [src, tgt, cells, frames]
+
+    MC = mach.const("bit_machine::limits::MAX_CELLS")
+    MF = mach.const("bit_machine::limits::MAX_FRAMES")
+    IOF = mach.const("analysis::IO_EXTRA_FRAMES")
+    for nm, c in (("MAX_CELLS", MC), ("MAX_FRAMES", MF), ("IO_EXTRA_FRAMES", IOF)):
+        if not z3.is_bv_value(z3.simplify(c)):
+            raise Unsupported("constant %s does not evaluate" % nm)
+    mc, mf, iof = [z3.simplify(c).as_long() for c in (MC, MF, IOF)]
+    log("  limits read from MIR: MAX_CELLS=%d MAX_FRAMES=%d IO_EXTRA_FRAMES=%d" % (mc, mf, iof))
+    if not (mc < (1 << 63) and mf < (1 << 63)):
+        raise Unsupported("limits are not below usize::MAX/2 as limits.rs documents")
+
+    # ---- layer 3: check_program / for_program
+    f_check = mach.find("::check_program")
+    f_for = mach.find("::for_program")
+    P = Ref(Opaque("program"))
+    outs = mach.exec_fn(f_check, [P])
+    pan = [c for (c, k, v) in outs if k == "panic"]
+    if pan:
+        sol.add("L3a check_program never panics (all usize widths/bounds)", [z3.Or(pan)], vars_for_model=pv)
+    else:
+        sol.trivial("L3a check_program never panics", "no panic path exists (syntactically)")
+    io = ext(src) + ext(tgt)
+    spec_ok = z3.And(z3.ULE(ext(src), mc), z3.ULE(ext(tgt), mc), z3.ULE(ext(cells), mc), z3.ULE(io, mc),
+                     z3.ULE(io + ext(cells), mc), z3.ULE(ext(frames), mf), z3.ULE(ext(frames) + iof, mf))
+    bad = []
+    for (c, k, v) in outs:
+        if k == "ret":
+            if not (isinstance(v, Adt) and v.variant in ("Ok", "Err")):
+                raise Unsupported("check_program returns %r" % (v,))
+            bad.append(z3.And(c, spec_ok if v.variant == "Err" else z3.Not(spec_ok)))
+    sol.add("L3b check_program Err <=> one of the seven documented sums exceeds its limit", [z3.Or(bad)], vars_for_model=pv)
+    outs2 = mach.exec_fn(f_for, [P])
+    pan2 = [c for (c, k, v) in outs2 if k == "panic"]
+    if pan2:
+        sol.add("L3c for_program never panics (arithmetic after the check cannot overflow)", [z3.Or(pan2)], vars_for_model=pv)
+    else:
+        sol.trivial("L3c for_program never panics", "no panic path exists (syntactically)")
+    bad2 = []
+    for (c, k, v) in outs2:
+        if k != "ret":
+            continue
+        if v.variant == "Err":
+            bad2.append(z3.And(c, spec_ok))
+        else:
+            bm = v.fields[0]
+            data, rd, wr = bm.fields[0], bm.fields[2], bm.fields[3]
+            enough = z3.And(z3.UGE(ext(data.data["len"]) * 8, io + ext(cells)),
+                            ext(rd.data["cap"]) == ext(frames) + iof, ext(wr.data["cap"]) == ext(frames) + iof)
+            bad2.append(z3.And(c, z3.Or(z3.Not(spec_ok), z3.Not(enough))))
+    sol.add("L3d for_program: refuses iff over a limit; else allocates >= src+tgt+extra_cells bits and extra_frames+2 frames",
+            [z3.Or(bad2)], vars_for_model=pv)
+
+    # ---- layer 2: each NodeBounds constructor keeps the invariant
+    #   I(bound, actual) := bound >= actual  or  bound > limit (so the machine refuses)
+    cl, cr, fl, fr, al, ar, gl, gr = [z3.BitVec(n, 64) for n in ("cl", "cr", "fl", "fr", "al", "ar", "gl", "gr")]
+    mid, w1, w2, w3 = [z3.BitVec(n, 64) for n in ("mid", "w1", "w2", "w3")]
+    kl, kr = z3.BitVec("kl", 32), z3.BitVec("kr", 32)
+    lv = [cl, cr, fl, fr, al, ar, gl, gr, mid, w1, w2, w3]
+    BL = Adt("NodeBounds", [cl, fl, Adt("Cost", [kl])])
+    BR = Adt("NodeBounds", [cr, fr, Adt("Cost", [kr])])
+
+    def inv(bound, actual, lim):
+        return z3.Or(z3.UGE(ext(bound), actual), z3.UGT(ext(bound), lim))
+
+    def mx(a, b):
+        return z3.If(z3.UGT(a, b), a, b)
+    hyp = [inv(cl, ext(al), mc), inv(cr, ext(ar), mc), inv(fl, ext(gl), mf), inv(fr, ext(gr), mf),
+           # frame bounds count nested frames: far below 2^62 in any program that fits in memory
+           z3.ULE(fl, 1 << 62), z3.ULE(fr, 1 << 62), z3.ULE(gl, 1 << 62), z3.ULE(gr, 1 << 62)]
+    # (constructor name, args, actual peak cells (66-bit), actual peak frames)
+    # recurrence read off BitMachine::exec_with_tracker (a model; validated natively against the real
+    # interpreter's high-water marks by `vreplay peaks`)
+    cases = [
+        ("iden", [w1], z3.BitVecVal(0, 66), z3.BitVecVal(0, 66)),
+        ("unit", [], z3.BitVecVal(0, 66), z3.BitVecVal(0, 66)),
+        ("witness", [w1], z3.BitVecVal(0, 66), z3.BitVecVal(0, 66)),
+        ("fail", [], z3.BitVecVal(0, 66), z3.BitVecVal(0, 66)),
+        ("injl", [BL], ext(al), ext(gl)), ("injr", [BL], ext(al), ext(gl)),
+        ("take", [BL], ext(al), ext(gl)), ("drop", [BL], ext(al), ext(gl)),
+        ("assertl", [BL], ext(al), ext(gl)), ("assertr", [BL], ext(al), ext(gl)),
+        ("case", [BL, BR], mx(ext(al), ext(ar)), mx(ext(gl), ext(gr))),
+        ("pair", [BL, BR], mx(ext(al), ext(ar)), mx(ext(gl), ext(gr))),
+        ("comp", [BL, BR, mid], ext(mid) + mx(ext(al), ext(ar)), 1 + mx(ext(gl), ext(gr))),
+        # disconnect(left, right, b_width, left_source_width, left_target_width)
+        ("disconnect", [BL, BR, w1, w2, w3], ext(w2) + ext(w3) + mx(ext(al), ext(ar)), 2 + mx(ext(gl), ext(gr))),
+    ]
+    for (nm, args, acells, aframes) in cases:
+        try:
+            cands = [g for g in funcs if g.name.startswith("analysis::") and g.name.endswith("::" + nm) and g.ret == "NodeBounds"]
+            if len(cands) > 1 and all(c.params == cands[0].params for c in cands):
+                cands = cands[-1:]
+            if len(cands) != 1:
+                raise Unsupported("NodeBounds::%s: %d MIR bodies" % (nm, len(cands)))
+            outs = mach.exec_fn(cands[0], args)
+        except Unsupported:
+            raise
+        pan = [c for (c, k, v) in outs if k == "panic"]
+        if pan:
+            sol.add("L2.%s never panics (no overflow for any child bounds / widths)" % nm, hyp + [z3.Or(pan)], vars_for_model=lv)
+        else:
+            sol.trivial("L2.%s never panics" % nm, "no panic path exists (syntactically)")
+        badc, badf = [], []
+        for (c, k, v) in outs:
+            if k == "ret":
+                badc.append(z3.And(c, z3.Not(inv(v.fields[0], acells, mc))))
+                badf.append(z3.And(c, z3.Not(inv(v.fields[1], aframes, mf))))
+        sol.add("L2.%s extra_cells covers the interpreter's peak (or exceeds the limit)" % nm, hyp + [z3.Or(badc)], vars_for_model=lv)
+        sol.add("L2.%s extra_frames covers the interpreter's peak (or exceeds the limit)" % nm, hyp + [z3.Or(badf)], vars_for_model=lv)
+    problems = []
+    for q in sol.run_all():
+        if q["verdict"] != "holds":
+            problems.append((q["name"], q["verdict"], q.get("model")))
+    return mach, sol, problems, (mc, mf, iof)
+
+
+def rec_peaks(t):
+    """recurrence of the interpreter's peak (cells, frames) on a program tree
+    as printed by `vreplay peaks` (same recurrence as in run_c07)"""
+    k = t[0]
+    if k in ("iden", "unit", "witness", "fail", "word", "jet"):
+        return (0, 0)
+    if k in ("injl", "injr", "take", "drop", "assertl", "assertr"):
+        return rec_peaks(t[1])
+    if k in ("case", "pair"):
+        (a, f), (b, g) = rec_peaks(t[1]), rec_peaks(t[2])
+        return (max(a, b), max(f, g))
+    if k == "comp":
+        (a, f), (b, g) = rec_peaks(t[1]), rec_peaks(t[2])
+        return (t[3] + max(a, b), 1 + max(f, g))
+    if k == "disconnect":
+        (a, f), (b, g) = rec_peaks(t[1]), rec_peaks(t[2])
+        return (t[3] + t[4] + max(a, b), 2 + max(f, g))
+    raise Unsupported("unknown combinator %r" % k)
+
+
 def run_c07_full(prop, mir, log, tier):
-    raise Unsupported("C07 layer 2/3 not wired yet")
+    mach, sol, problems, (mc, mf, iof) = run_c07(mir, log, tier)
+    # validation of the recurrence model against the real interpreter (native, hooks on)
+    nat = native(["peaks"])
+    validated, mism = 0, 0
+    samples = []
+    if "error" in nat:
+        log("  model validation could not run: %s" % nat["error"][:300])
+        mism += 1
+    else:
+        for pr in nat["programs"]:
+            rc, rf = rec_peaks(pr["tree"])
+            validated += 1
+            ok = (pr["max_cells"] - pr["io_cells"] <= rc <= pr["extra_cells"] and
+                  max(0, pr["max_frames"] - pr["io_frames"]) <= rf <= pr["extra_frames"] and
+                  (not pr["tight"] or (pr["max_cells"] - pr["io_cells"] == rc)))
+            if not ok:
+                mism += 1
+                log("  MODEL MISMATCH %s: measured=(%d cells,%d frames) io=(%d,%d) recurrence=(%d,%d) bounds=(%d,%d)" % (
+                    pr["name"], pr["max_cells"], pr["max_frames"], pr["io_cells"], pr["io_frames"], rc, rf, pr["extra_cells"], pr["extra_frames"]))
+            if len(samples) < 5:
+                samples.append({"program": pr["name"], "measured_cells": pr["max_cells"], "measured_frames": pr["max_frames"],
+                                "recurrence": [rc, rf], "bounds": [pr["extra_cells"], pr["extra_frames"]]})
+        log("  recurrence model vs real interpreter: %d programs, %d mismatches" % (validated, mism))
+    exit_code = 2 if mism else 0
+    known = load_known("C07")
+    for (nm, verdict, model) in problems:
+        if verdict == "inconclusive" or model is None:
+            log("INCONCLUSIVE query %s" % nm)
+            if exit_code == 0:
+                exit_code = 2
+            continue
+        k = [x for x in known if x.get("status") == "open" and re.search(x["check"], nm)]
+        rp = replay_c07(nm, model, log)
+        if rp is True and k:
+            print("KNOWN-FINDING: property=C07 %s [%s]" % (k[0]["what"], k[0]["id"]))
+            continue
+        if rp is True:
+            path = os.path.join(VERIF, "replays", "C07", re.sub(r"\W+", "_", nm)[:60] + ".json")
+            os.makedirs(os.path.dirname(path), exist_ok=True)
+            json.dump({"query": nm, "model": model, "replay_cmd": "vcheck.py C07 --replay " + path}, open(path, "w"), indent=1)
+            print("VIOLATION property=C07 replay=%s" % path)
+            print("  %s model=%s" % (nm, model))
+            exit_code = 1
+        else:
+            log("NON-REPRODUCING counterexample for %s: %s (%s)" % (nm, model, rp))
+            if exit_code == 0:
+                exit_code = 2
+    holds = [q for q in sol.queries if q.get("verdict") == "holds"]
+    cov = {
+        "evaluations": len(sol.queries) + validated,
+        "distinct_nontrivial": len([q for q in holds if q.get("z3") != "trivial"]),
+        "rule": "one evaluation = one SMT query over all 64-bit widths/bounds (z3 and cvc5 must agree) or one native model-validation program; non-trivial = needed the solver",
+        "samples": [{"query": q["name"], "z3": q["z3"], "cvc5": q.get("cvc5"), "verdict": q["verdict"], "model": q.get("model")} for q in sol.queries],
+        "obligations": len(sol.queries), "discharged": len(holds),
+        "checker_cmd": "cargo +nightly rustc -- -Zunpretty=mir | vlib/mir2smt.py | z3 5.1.0 + cvc5 1.0.3",
+        "functions_encoded": mach.encoded, "calls_modelled": sorted(set(mach.modelled)),
+        "bounds": "no loop: all usize values of type widths and child bounds (frame bounds assumed <= 2^62)",
+        "outside_claim": "layer 1 of DESIGN (the real interpreter under Kani on symbolic inputs) is not reachable: the interpreter's peak usage enters as a recurrence model read off exec_with_tracker, validated natively on %d concrete programs with the verif-hooks high-water marks; jets" % validated,
+        "limits": {"MAX_CELLS": mc, "MAX_FRAMES": mf, "IO_EXTRA_FRAMES": iof},
+        "model_validation": {"programs": validated, "mismatches": mism, "samples": samples},
+        "traces_validated_against_impl": validated,
+        "solver_time_s": round(sol.solver_s, 2), "exhaustive": False,
+    }
+    return exit_code, cov
+
+
+def load_known(prop):
+    p = os.path.join(VERIF, "known_findings.json")
+    if not os.path.exists(p):
+        return []
+    return [k for k in json.load(open(p)).get("findings", []) if k["property"] == prop]
+
+
+def replay_c07(nm, model, log):
+    """native reproduction of a bounds-arithmetic counterexample: a program family whose
+    middle type has width >= 2^64 (saturated) realises the overflowing inputs"""
+    m = re.match(r"^L2\.(\w+) ", nm)
+    if not m or m.group(1) not in ("comp", "disconnect"):
+        return "no native program family for %s" % nm
+    res = {}
+    for prof in ("dev", "release"):
+        exe = build_replay(release=(prof == "release"))
+        p = subprocess.run([exe, "bounds_overflow", m.group(1)], stdout=subprocess.PIPE, stderr=subprocess.PIPE, text=True, timeout=600,
+                           env=dict(os.environ, RUST_BACKTRACE="0"))
+        res[prof] = {"rc": p.returncode, "out": p.stdout.strip()[-400:], "err": " ".join(p.stderr.split())[:300]}
+    log("  native replay (%s overflow family): dev rc=%s %s | release rc=%s %s" % (
+        m.group(1), res["dev"]["rc"], (res["dev"]["err"] or res["dev"]["out"])[:160].replace("\n", " "),
+        res["release"]["rc"], (res["release"]["out"] or res["release"]["err"])[:200].replace("\n", " ")))
+    dev_panics = res["dev"]["rc"] != 0 and "overflow" in res["dev"]["err"]
+    rel_bad = False
+    try:
+        j = json.loads(res["release"]["out"])
+        # property: bound covers the run, or the machine refuses
+        rel_bad = j["for_program_ok"] and j["extra_cells"] < j["needed_cells"]
+    except Exception:
+        rel_bad = res["release"]["rc"] != 0
+    return True if (dev_panics or rel_bad) else "native runs satisfy the property: %s" % res
 
 
 def replay_file(path):
@@ -582,6 +852,6 @@ def replay_file(path):
 
     def log(x):
         print(x)
-    r = replay_c19(d["query"], d["model"], log)
+    r = replay_c07(d["query"], d["model"], log) if d["query"].startswith("L") else replay_c19(d["query"], d["model"], log)
     print("reproduced: %s" % (r is True))
     return 1 if r is True else 0
